@@ -1,6 +1,7 @@
 import DaskModel.Lemmas.Repart
 import DaskModel.Lemmas.Truthful
 import DaskModel.Lemmas.RepartDivs
+import DaskModel.Lemmas.RepartSize
 import DaskModel.Props.C45
 /-! # C44 — repartitioning preserves rows, order and requested layout (theorems) -/
 namespace Dask.C44
@@ -126,6 +127,85 @@ theorem lower_npartitions (new old : Nat) (interp : Option (List Nat)) :
         split
         · rename_i h; simp [kindCount, h]
         · rfl
+
+/-- **RepartitionSize**: whatever the split counts `ks` (one per input partition, from `1 + mem_usage // size`) and
+    the chunk lengths `lens` (no empty chunk, together covering all `sum ks` pieces — what `iter_chunks` yields:
+    `iterChunks_spec`), the layer evaluates, yields one partition per chunk, and keeps rows and order. -/
+theorem repartition_size_rows {α : Type} (posOf : Nat → Nat → Option (List Nat)) (hpos : PosOK posOf)
+    (parts : List (List α)) (ks lens : List Nat) (out : List (List α))
+    (hk : ks.length = parts.length) (hkpos : ∀ k ∈ ks, 0 < k)
+    (hlpos : ∀ l ∈ lens, 0 < l) (hne : lens ≠ []) (hsum : lens.sum = ks.sum)
+    (h : repartitionSizeWith posOf parts ks lens = some out) :
+    out.length = lens.length ∧ out.flatten = parts.flatten := by
+  unfold repartitionSizeWith at h
+  simp only [Option.bind_eq_some_iff] at h
+  obtain ⟨pieces, hpieces, bs, hbs, hout⟩ := h
+  have hlen_le : ∀ (l : List Nat), (∀ k ∈ l, 0 < k) → l.length ≤ l.sum := by
+    intro l
+    induction l with
+    | nil => intro _; exact Nat.le_refl _
+    | cons a as ih =>
+      intro hl
+      have h1 := hl a List.mem_cons_self
+      have h2 := ih (fun k hk => hl k (List.mem_cons_of_mem _ hk))
+      simp only [List.sum_cons, List.length_cons]; omega
+  -- the pieces: `sum ks` of them, same rows
+  have hp : pieces.length = ks.sum ∧ pieces.flatten = parts.flatten := by
+    unfold sizePieces at hpieces
+    split at hpieces
+    · rename_i hall
+      cases hpieces
+      refine ⟨?_, rfl⟩
+      have : ∀ (l : List Nat), l.all (· == 1) = true → l.sum = l.length := by
+        intro l
+        induction l with
+        | nil => intro _; rfl
+        | cons a as ih =>
+          intro hl
+          simp only [List.all_cons, Bool.and_eq_true, beq_iff_eq] at hl
+          simp only [List.sum_cons, List.length_cons, ih hl.2, hl.1]; omega
+      rw [this ks hall, hk]
+    · exact tomore_rows posOf hpos parts ks pieces hpieces
+  have hnle : parts.length ≤ lens.sum := by
+    rw [hsum, ← hk]; exact hlen_le ks hkpos
+  obtain ⟨bs', hbs', hbl, hb0, hblast, hbm, hble⟩ := sizeBoundaries_spec hlpos hne hnle
+  rw [hbs'] at hbs
+  cases hbs
+  have hle' : ∀ b ∈ bs, b ≤ pieces.length := by
+    intro b hb; rw [hp.1, ← hsum]; exact hble b hb
+  rw [evalLayer_toFewerLayer pieces bs hle' hbm] at hout
+  cases hout
+  refine ⟨by rw [List.length_map, chunks_length, hbl]; omega, ?_⟩
+  rw [← List.flatten_flatten, chunks_flatten pieces bs 0 lens.sum hb0 hblast hbm, ← hp.2]
+  have : lens.sum = pieces.length := by rw [hp.1, hsum]
+  rw [this, pySlice_full]
+
+/-- `_nsplits = 1 + mem_usage // size` never asks for zero pieces (hypothesis `hkpos` above) -/
+theorem sizeNsplits_pos {usages : List Nat} {size : Nat} {ks : List Nat} (h : sizeNsplits usages size = some ks) :
+    ks.length = usages.length ∧ ∀ k ∈ ks, 0 < k := by
+  unfold sizeNsplits at h
+  split at h
+  · cases h
+  · cases h
+    refine ⟨by simp, ?_⟩
+    intro k hk
+    simp only [List.mem_map] at hk
+    obtain ⟨u, _, rfl⟩ := hk
+    exact Nat.lt_of_lt_of_le Nat.zero_lt_one (Nat.le_add_right 1 _)
+
+/-- **`iter_chunks`** (re-exported from `Lemmas/RepartSize`): the chunk lengths cover every size exactly once and no
+    chunk is empty — the hypotheses `hlpos`, `hsum` of `repartition_size_rows` for integer memory usages -/
+theorem iter_chunks_lengths {sizes : List Nat} {max : Nat} {lens : List Nat} (h : iterChunks sizes max = some lens) :
+    lens.sum = sizes.length ∧ ∀ l ∈ lens, 0 < l := iterChunks_spec h
+
+example : iterChunks [48, 16, 96, 0] 100 = some [2, 2] := by decide
+example : iterChunks [48, 16, 101] 100 = none := by decide
+example : sizeNsplits [48, 250, 96] 100 = some [1, 3, 1] := by decide
+example : sizeBoundaries [2, 2] 4 = some [0, 2, 4] := by decide
+example : repartitionSizeWith (fun len k => some ((List.range k).map (fun i => i * len / k) ++ [len]))
+    [[1, 2, 3], [4], [5, 6, 7, 8, 9, 10], []] [1, 1, 1, 1] [2, 2] = some [[1, 2, 3, 4], [5, 6, 7, 8, 9, 10]] := by decide
+example : repartitionSizeWith (fun len k => some ((List.range k).map (fun i => i * len / k) ++ [len]))
+    [[1, 2, 3, 4], [5]] [2, 1] [1, 2] = some [[1, 2], [3, 4, 5]] := by decide
 
 /-! ### RepartitionDivisions: rows, order, divisions -/
 
